@@ -227,7 +227,7 @@ theorem lzwRunB_eq : ∀ (fuel : Nat) (st : LzwSt) (rest : Bytes) (buff bpos : N
 
 /-- `lzwdecode` in terms of the bit view. -/
 theorem lzwdecode_bits (data : Bytes) : lzwdecode data = lzwRun (8 * data.length + 1) lzwInit (bitsOf data) := by
-  unfold lzwdecode
+  rw [lzwdecode_lit]
   rw [lzwRunB_eq _ _ _ _ _ (Nat.le_refl 8)]
   simp [viewBits, bitsOfNat]
 
@@ -430,7 +430,7 @@ theorem feed_code {ext : List Bytes} {w : Bytes} {j : Nat} {st : LzwSt} (h : Lzw
       have e2 : (b.toNat == 257) = false := by simp; omega
       have hlt : b.toNat < 256 := by omega
       refine ⟨by rw [codeOf_single]; omega, by rw [codeOf_single]; omega, by rw [codeOf_single]; omega, ?_⟩
-      simp only [codeOf_single, feed, e1, e2, Bool.false_eq_true, if_false, tableGet, Bool.not_true, hlt, if_true,
+      simp only [codeOf_single, feed_lit, e1, e2, Bool.false_eq_true, if_false, tableGet_lit, Bool.not_true, hlt, if_true,
         UInt8.ofNat_toNat, stAfter]
       rfl
   · obtain ⟨p, b, wt, hp, hpne, hw', he, hl, hn, hmem⟩ := h.pos (by omega)
@@ -450,8 +450,8 @@ theorem feed_code {ext : List Bytes} {w : Bytes} {j : Nat} {st : LzwSt} (h : Lzw
         have hlt : b.toNat < 256 := by omega
         have hlt2 : b.toNat < 258 + sext.length := by omega
         refine ⟨by rw [codeOf_single]; omega, by rw [codeOf_single]; omega, by rw [codeOf_single]; omega, ?_⟩
-        simp only [codeOf_single, feed, e1, e2, Bool.false_eq_true, if_false, tableLen, if_true, hlt2, tableGet,
-          Bool.not_true, hlt, UInt8.ofNat_toNat, feedGrow, List.take, hgrow, stAfter, he]
+        simp only [codeOf_single, feed_lit, e1, e2, Bool.false_eq_true, if_false, tableLen_lit, if_true, hlt2, tableGet_lit,
+          Bool.not_true, hlt, UInt8.ofNat_toNat, feedGrow_lit, List.take, hgrow, stAfter, he]
       | cons t ts =>
         have hm : (b :: t :: ts) ∈ ext := by
           rcases hmem with h | h
@@ -472,8 +472,8 @@ theorem feed_code {ext : List Bytes} {w : Bytes} {j : Nat} {st : LzwSt} (h : Lzw
           have hsub : 258 + idx - 258 = idx := by omega
           have hg : sext[idx]? = some (b :: t :: ts) := by
             rw [he, List.getElem?_append_left hlast] at hget; exact hget
-          simp only [feed, e1, e2, Bool.false_eq_true, if_false, tableLen, if_true, hlt2, tableGet, Bool.not_true,
-            h256, h258, hsub, hg, feedGrow, List.take, hgrow, stAfter, he]
+          simp only [feed_lit, e1, e2, Bool.false_eq_true, if_false, tableLen_lit, if_true, hlt2, tableGet_lit, Bool.not_true,
+            h256, h258, hsub, hg, feedGrow_lit, List.take, hgrow, stAfter, he]
         · have hidx' : idx = sext.length := by omega
           subst hidx'
           have hlt2 : ¬ (258 + sext.length < 258 + sext.length) := by omega
@@ -483,8 +483,8 @@ theorem feed_code {ext : List Bytes} {w : Bytes} {j : Nat} {st : LzwSt} (h : Lzw
           have hph : ph = b := by
             simp only [List.cons_append, List.cons.injEq] at hg; exact hg.1
           subst hph
-          simp only [feed, e1, e2, Bool.false_eq_true, if_false, tableLen, if_true, hlt2, beq_self_eq_true,
-            feedGrow, List.take, hgrow, stAfter, he]
+          simp only [feed_lit, e1, e2, Bool.false_eq_true, if_false, tableLen_lit, if_true, hlt2, beq_self_eq_true,
+            feedGrow_lit, List.take, hgrow, stAfter, he]
           rw [← hg]
 
 def stReset : LzwSt := { nbits := 9, init := true, ext := [], prev := some [] }
@@ -557,7 +557,7 @@ theorem run_clear (ext : List Bytes) (w : Bytes) (j : Nat) (fuel : Nat) (rest : 
       _ ≤ 2 ^ lzwWidth (j + 1) := Nat.pow_le_pow_right (by omega) this
   have hn : lzwWidth (j + 1) = (stAfter ext w j).nbits := rfl
   rw [hn, lzwRun_step fuel _ _ rest hfit]
-  have hf : feed (stAfter ext w j) 256 = .ok stReset [] := by simp [feed, stReset]
+  have hf : feed (stAfter ext w j) 256 = .ok stReset [] := by simp [feed_lit, stReset]
   rw [hf]
   simp only [List.nil_append]
   cases lzwRun fuel stReset rest with
@@ -573,7 +573,7 @@ theorem run_eod (st : LzwSt) (j : Nat) (hn : st.nbits = lzwWidth j) (fuel k : Na
     calc 257 < 2 ^ 9 := by decide
       _ ≤ 2 ^ lzwWidth j := Nat.pow_le_pow_right (by omega) hge
   rw [← hn, lzwRun_step fuel _ _ _ hfit]
-  have hf : feed st 257 = .ok st [] := by simp [feed]
+  have hf : feed st 257 = .ok st [] := by simp [feed_lit]
   have hs := lzwRun_short fuel st (List.replicate k false) (by simp; omega)
   simp only [hf, hs]
   rfl
@@ -654,7 +654,7 @@ theorem lzwdecode_lzwEnc (clr : Nat → Bool) (x : Bytes) : lzwdecode (lzwEnc cl
   have h9 : lzwWidth 0 = lzwInit.nbits := rfl
   have hfit : 256 < 2 ^ lzwInit.nbits := by decide
   rw [h9, lzwRun_step f lzwInit 256 _ hfit]
-  have hfeed : feed lzwInit 256 = .ok stReset [] := by simp [feed, stReset]
+  have hfeed : feed lzwInit 256 = .ok stReset [] := by simp [feed_lit, stReset]
   have hlen2 : (lzwGo clr [] [] 0 0 x).length < f := by
     rw [lzwBits_clear] at hcodes hF
     simp only [List.length_cons, List.length_append, bitsOfNat_length] at hcodes hF
